@@ -769,7 +769,7 @@ fn doc_of_len(target: usize, noise: Option<&mut Rng>) -> Option<String> {
 /// PMTiles root/metadata offset 16384, deflate window 32768, u16 65536, thorough: 1 MiB), in EVERY container
 fn emit_sizes(out: &mut Out, rt: &tokio::runtime::Runtime, dir: &Path, rng: &mut Rng, thorough: bool) {
 	let mut targets: Vec<usize> = vec![];
-	let bases: &[usize] = if thorough { &[64, 128, 256, 512, 1000, 1024, 2048, 4096, 8192, 16257, 16384, 32768, 65536, 131072, 1 << 20] } else { &[128, 512, 4096, 16384, 32768, 65536] };
+	let bases: &[usize] = if thorough { &[64, 128, 256, 512, 1000, 1024, 2048, 4096, 7680, 8192, 16257, 16384, 32768, 65536, 131072, 1 << 20] } else { &[128, 512, 4096, 7680, 8192, 16384, 32768, 65536] };
 	for b in bases {
 		targets.extend([b - 1, *b, b + 1]);
 	}
@@ -1459,6 +1459,41 @@ pub fn run(args: &Args, out: &mut Out, rng: &mut Rng) {
 		r#"{"tiles":["http://other/{z}/{x}/{y}"],"name":"given","type":"given","format":"given","vector_layers":[{"id":"a","fields":{}}]}"#,
 		r#"{"bounds":[-1e-300,-5e-324,1e-300,5e-324],"fillzoom":7}"#,
 	];
+	// bounds that fail `GeoBBox::check` (antimeridian-crossing, just outside the world, reversed): the document must
+	// still come back, not the default one (checklist 11: the fallback must not be taken for a readable document)
+	let odd_bounds = [
+		r#"{"bounds":[170,-10,-170,10],"name":"antimeridian"}"#,
+		r#"{"bounds":[-180.0000001,-90.0000001,180.0000001,90.0000001],"name":"outside"}"#,
+		r#"{"bounds":[10,20,-10,-20],"name":"reversed","center":[181,91,31]}"#,
+	];
+	for (k, doc) in odd_bounds.iter().enumerate() {
+		let tiles = gen_tiles(rng);
+		for c in CONTAINERS {
+			out.count("container_odd_bounds");
+			emit_container(out, &rt, &dir, c, comps[k % 3], doc, &tiles, false);
+		}
+	}
+	// checklist 12/13: trap strings and number borders in documents, through every container
+	let mut special: Vec<String> = vec![];
+	for (i, t) in crate::c19_gen::UNICODE_TRAPS.iter().enumerate() {
+		special.extend(super::tj::trap_docs(t).into_iter().skip(i % 3).take(if args.thorough() { 3 } else { 1 }));
+	}
+	for (i, n) in crate::c19_gen::NUM_BORDERS.iter().enumerate() {
+		for d in super::tj::border_docs(n).into_iter().skip(if args.thorough() { 0 } else { i % 7 }).take(if args.thorough() { 7 } else { 2 }) {
+			// only documents the real reader accepts are inside the quantifier; they are stored in canonical form
+			if let Ok(Ok(t)) = catch(|| TileJSON::try_from(d.as_str())) {
+				special.push(t.as_string());
+			}
+		}
+	}
+	for (k, doc) in special.iter().enumerate() {
+		let tiles = gen_tiles(rng);
+		let cs: Vec<&str> = if args.thorough() { CONTAINERS.to_vec() } else { vec![CONTAINERS[k % 4], CONTAINERS[(k + 1) % 4]] };
+		for c in cs {
+			out.count("container_traps_borders");
+			emit_container(out, &rt, &dir, c, comps[k % 3], doc, &tiles, false);
+		}
+	}
 	for (k, doc) in interplay.iter().enumerate() {
 		let tiles = gen_tiles(rng);
 		for c in CONTAINERS {
@@ -1486,7 +1521,15 @@ pub fn run(args: &Args, out: &mut Out, rng: &mut Rng) {
 			let mut items = vec![];
 			for j in 0..batch {
 				let container = if (done + j) % 2 == 0 { "versatiles" } else { "pmtiles" };
-				let doc = if done == 0 && j < interplay.len() { interplay[j].to_string() } else { gen_accepted_doc(out, rng) };
+				let doc = if done == 0 && j < interplay.len() {
+					interplay[j].to_string()
+				} else if done == 0 && j - interplay.len() < odd_bounds.len() {
+					odd_bounds[j - interplay.len()].to_string()
+				} else if done == 10 && !special.is_empty() {
+					special[(j * 7 + 3) % special.len()].clone()
+				} else {
+					gen_accepted_doc(out, rng)
+				};
 				let tiles = if done == 0 && j == 5 { vec![(0, 0, 0)] } else if done == 0 && j == 6 { vec![(9, 0, 0), (10, 1023, 1023)] } else { gen_tiles(rng) };
 				if let Some(it) = prepare_http(out, &rt, &dir, &format!("s{j}"), container, &doc, &tiles) {
 					items.push(it);
